@@ -389,4 +389,46 @@ example : EncFSrc.deliver C11.exP C11.exC 3 20
       (⟨sealS C11.exP C11.exC C11.exPlain, 0, 0⟩ : Throttled rAlt)).1 = C11.exPlain := by
   decide
 
+/-! ### `helpers::StreamWriter`: a file fed through the `Write` adapter, in any pieces -/
+
+theorem SpecState.append_nil (s : SpecState) (id : Nat) : s.append id [] = s := by
+  obtain ⟨n, fs⟩ := s
+  simp only [SpecState.append, List.append_nil, SpecState.mk.injEq, true_and]
+  induction fs with
+  | nil => rfl
+  | cons f fs ih => simp only [List.map_cons, ih]; split <;> rfl
+
+theorem SpecState.append_append (s : SpecState) (id : Nat) (a b : Bytes) :
+    (s.append id a).append id b = s.append id (a ++ b) := by
+  obtain ⟨n, fs⟩ := s
+  simp only [SpecState.append, List.map_map, SpecState.mk.injEq, true_and]
+  apply List.map_congr_left
+  intro f _
+  simp only [Function.comp]
+  by_cases h : f.id = id <;> simp [h]
+
+theorem foldl_stream_writes (s : SpecState) (id : Nat) (pieces : List Bytes) :
+    (pieces.map (StreamWriter.write id)).foldl SpecState.step s = s.append id pieces.flatten := by
+  induction pieces generalizing s with
+  | nil => simp [SpecState.append_nil]
+  | cons p ps ih =>
+    simp only [List.map_cons, List.foldl_cons, List.flatten_cons]
+    rw [ih, ← SpecState.append_append]
+    simp [SpecState.step, StreamWriter.write]
+
+/-- **C13.stream_writer** — whatever pieces `io::copy` (or any caller) hands to the `Write` adapter
+    of a file, the archive means the same as if the bytes had been appended in one call: the op
+    list with the pieces and the op list with one append have the same specification, hence (C01,
+    C10) every reader answer is the same. -/
+theorem stream_writer (pre post : List Op) (id : Nat) (pieces : List Bytes) :
+    specOf (pre ++ pieces.map (StreamWriter.write id) ++ post) =
+      specOf (pre ++ [.append id pieces.flatten.length pieces.flatten] ++ post) := by
+  simp only [specOf, List.foldl_append, foldl_stream_writes, List.foldl_cons, List.foldl_nil,
+    SpecState.step, List.take_length]
+
+/-- and the writer accepts the pieces whenever … is not needed for the meaning; acceptance of each
+    piece is C09's subject.  Non-vacuity: three pieces into file 0 of the C01 example. -/
+example : specOf ([.start [97]] ++ [[1], [], [2, 7]].map (StreamWriter.write 0) ++ [.end_ 0, .finalize]) =
+    [([97], [1, 2, 7])] := by decide
+
 end MlaModel.C13
